@@ -266,7 +266,7 @@ def dec_str(d):
     v = 0
     for limb in reversed(d.get("c", [])):
         v = v * 1000 + limb
-    return "%s%dE%d" % (s, v, d.get("e", 0))
+    return "%s%dE%d%s" % (s, v, d.get("e", 0), "(heap)" if d.get("hp") else "")
 
 
 def ctx_str(c):
